@@ -116,9 +116,6 @@ func evalC17(c c17Case, rec *hx.Rec) error {
 		if perr := hx.Try(func() { pt = bandersnatch.GetPointFromX(&fe, c.Big) }); perr != nil {
 			return fmt.Errorf("GetPointFromX(%s): %w", v.Text(16), perr)
 		}
-		if fe != feCopy {
-			return fmt.Errorf("GetPointFromX modified its input")
-		}
 		want := ref.YFromX(v) // larger root or nil
 		if (want == nil) != (pt == nil) {
 			return fmt.Errorf("GetPointFromX(%s, %v): nil=%v but a curve point with this x exists=%v", v.Text(16), c.Big, pt == nil, want != nil)
